@@ -13,11 +13,11 @@ ID = "C06"
 LEVEL = "model_checking"
 FLAVOUR = "plain"
 TIMEOUT = 600
-RULE = ("per dataset (13; thorough 14): simple file of 3 row groups with two int columns interleaved with text / "
+RULE = ("per dataset (14; thorough 15): simple file of 3 row groups with two int columns interleaved with text / "
         "categorical / float (thorough also: 7 columns, two text and two float), foreign file with an empty row group "
         "and an optional int whose NULLs lie in one row group, foreign file with one dictionary per row group, foreign "
         "pandas-categorical file with one dictionary per row group and object column labels, the same with a PLAIN "
-        "fallback page in one row group, hive 4 row groups with an ordered categorical, hive partitioned, foreign hive "
+        "fallback page in one row group, hive 4 row groups with an ordered categorical, hive partitioned, drill with two directory levels holding the same values, foreign hive "
         "directories p=1/p=x/p=2 without partition metadata, written int index + two int columns, tz-aware "
         "DatetimeIndex, two-level MultiIndex, nullable+datetime, file without row groups. "
         "States = handles reachable in <= 2 derivation steps over {pf[i] for every i, pf[i:j:k] for every i,j in "
@@ -45,7 +45,7 @@ ASSUMPTIONS = ["labels of an automatically generated range index are positional 
                "a handle without row groups knows no partition columns: only its row count is judged",
                "the raw thrift field fmd.num_rows of a derived handle is not a reported count (count(), info, len are)"]
 
-DATASETS = ["simple3", "foreign_empty", "foreign_dict", "foreign_cat", "foreign_catfb", "hive4", "hive_part",
+DATASETS = ["simple3", "foreign_empty", "foreign_dict", "foreign_cat", "foreign_catfb", "hive4", "hive_part", "drill2",
             "foreign_hive", "written_index", "dt_index", "multi_index", "nullable_dt", "empty0"]
 THOROUGH_DATASETS = ["simple7"]
 FIRST = ["root", "pick", "slice", "pickle", "copy", "deepcopy", "reopen", "fileobj"]
@@ -162,6 +162,13 @@ def build(ds, d):
         path = os.path.join(d, "dsp")
         fastparquet.write(path, df, file_scheme="hive", partition_on=["p"], row_group_offsets=[0, 4], write_index=False)
         return path, ["a", "s", "p"], [], False, {"cats": []}
+    if ds == "drill2":
+        # two directory levels without names (dir0 / dir1), the same values at both levels
+        df = pd.DataFrame({"a": range(8), "s": ["r%d" % i for i in range(8)], "p": [1, 2, 1, 2, 1, 2, 1, 2],
+                           "q": [2, 2, 1, 1, 1, 1, 2, 2]})
+        path = os.path.join(d, "dsd")
+        fastparquet.write(path, df, file_scheme="drill", partition_on=["p", "q"], write_index=False)
+        return path, ["a", "s", "dir0", "dir1"], [], False, {"cats": []}
     if ds == "foreign_hive":
         # directories written one by one, as another tool would: no partition metadata, no _metadata file; one
         # directory name does not parse as a number
